@@ -145,6 +145,11 @@ def rand_cfg(ctx, pred, ref):
                 l = rng.choice(labs)
                 s = oracle.mask_score(dm, ref == l, pred == l)
                 t = (s.numerator, s.denominator)
+                if rng.random() < 0.5:
+                    import math
+                    tf = math.nextafter(float(s), math.inf)     # one float beyond the score: must fail
+                    if 0.0 < tf <= 1.0:
+                        t = tf.as_integer_ratio()
         dec = [dm, {"q": list(t)}]
     kind = rng.choice(["MATCHED", "MATCHED", "UNMATCHED", "UNMATCHED.m2o", "UNMATCHED.merge"])
     if kind == "MATCHED":
